@@ -147,6 +147,9 @@ def run(tier):
     # d) target exception on the j-th input
     wd = workdir('c06')
     jobs = [(cls, scen, mux) for cls in lp.PERSISTENT for scen in ('pfail1', 'pfail', 'pfail3') for mux in (False, True)]
+    # a result that arrives but cannot be rebuilt in the parent (remote kind: the forwarding thread is the one that rebuilds):
+    # what can be obtained is still a prefix, and the stream ends
+    jobs += [('PersistentRemoteWorker', 'pbad2', mux) for mux in (False, True)]
 
     def one(job):
         cls, scen, mux = job
